@@ -212,7 +212,7 @@ fn select_marker_tree(tree: &Value, node: &Node, pop: &Pop, rng: &mut SmallRng) 
     }
 }
 
-fn dyn_build(ws: &[u64]) -> DynWeighted<Pop> {
+fn dyn_build(ws: &[u64], scale: usize) -> DynWeighted<Pop> {
     struct M(usize);
     impl Selector<Pop> for M {
         type Error = LeafErr;
@@ -220,9 +220,10 @@ fn dyn_build(ws: &[u64]) -> DynWeighted<Pop> {
             LeafSel::Marker { id: self.0 }.select(pop, rng)
         }
     }
-    let mut d = DynWeighted::new(M(1), ws[0] as usize);
+    // a common factor leaves the law unchanged; 2^32 exercises weights beyond 32 bits
+    let mut d = DynWeighted::new(M(1), ws[0] as usize * scale);
     for (k, w) in ws.iter().enumerate().skip(1) {
-        d = d.with_selector(M(k + 1), *w as usize);
+        d = d.with_selector(M(k + 1), *w as usize * scale);
     }
     d
 }
@@ -322,11 +323,13 @@ pub fn replay(args: &[String]) -> i32 {
             },
             _ => {
                 let ws: Vec<u64> = arr(&case["ws"]).iter().map(u).collect();
-                let d = dyn_build(&ws);
-                for _ in 0..reps {
-                    let ob = guarded(|| select_dyn(&d, &pop, &mut rng)).unwrap_or_else(|m| json!({"k": "panic", "msg": m}));
-                    if !check(ob, &mut n, &mut bad, &mut out) {
-                        break;
+                for scale in [1usize, 1 << 32] {
+                    let d = dyn_build(&ws, scale);
+                    for _ in 0..reps {
+                        let ob = guarded(|| select_dyn(&d, &pop, &mut rng)).unwrap_or_else(|m| json!({"k": "panic", "msg": m}));
+                        if !check(ob, &mut n, &mut bad, &mut out) {
+                            break;
+                        }
                     }
                 }
             }
@@ -361,7 +364,7 @@ pub fn law(args: &[String]) -> i32 {
             }
         } else {
             let ws: Vec<u64> = arr(&case["ws"]).iter().map(u).collect();
-            let d = dyn_build(&ws);
+            let d = dyn_build(&ws, if ci % 2 == 0 { 1 } else { 1 << 32 });
             for _ in 0..n {
                 let ob = select_dyn(&d, &pop, &mut rng);
                 match ob["j"].as_u64() {
@@ -390,6 +393,7 @@ pub fn nested_trace(args: &[String]) -> i32 {
         let popj: Vec<Value> = (0..n)
             .map(|_| json!({"score": rng.random_range(0..4), "res": (0..m).map(|_| rng.random_range(0..3)).collect::<Vec<i64>>()}))
             .collect();
+        #[allow(clippy::items_after_statements)]
         fn gen(rng: &mut SmallRng, depth: u32, n: usize, m: usize) -> Value {
             if depth == 0 || rng.random_range(0..3) == 0 {
                 let w = [0u32, 0, 1, 2, 5][rng.random_range(0..5)];
@@ -409,8 +413,50 @@ pub fn nested_trace(args: &[String]) -> i32 {
                 json!({"t": "pair", "a": gen(rng, depth - 1, n, m), "b": gen(rng, depth - 1, n, m)})
             }
         }
-        let tree = gen(&mut rng, 3, n, m);
         let pop = make_pop(&Value::Array(popj.clone()), false);
+        if rng.random_range(0..4) == 0 {
+            // the dynamic list of REAL selectors, weights up to usize::MAX
+            let k = rng.random_range(1..=4);
+            let leaves: Vec<Value> = (0..k).map(|_| gen(&mut rng, 0, n, m)).collect();
+            let weights: Vec<usize> = (0..k)
+                .map(|_| [0usize, 0, 1, 5, 1 << 32, usize::MAX][rng.random_range(0..6)])
+                .collect();
+            let overflow = weights.iter().try_fold(0usize, |a, w| a.checked_add(*w)).is_none();
+            struct L(LeafSel);
+            impl Selector<Pop> for L {
+                type Error = LeafErr;
+                fn select<'p, R: Rng + ?Sized>(&self, pop: &'p Pop, rng: &mut R) -> Result<&'p Probe, LeafErr> {
+                    self.0.select(pop, rng)
+                }
+            }
+            // SAFETY of Send + Sync: the selectors hold no interior state
+            unsafe impl Send for L {}
+            unsafe impl Sync for L {}
+            let res = guarded(|| {
+                let mut d = DynWeighted::new(L(leaf_sel(&leaves[0])), weights[0]);
+                for j in 1..k {
+                    d = d.with_selector(L(leaf_sel(&leaves[j])), weights[j]);
+                }
+                match d.select(&pop, &mut rng) {
+                    Ok(i) => locate(&pop, i).map_or(json!({"k": "foreign"}), |i| json!({"k": "member", "i": i})),
+                    Err(DynWeightedError::ZeroWeightSum(e)) => json!({"k": "weight_error", "detail": format!("{e:?}")}),
+                    Err(DynWeightedError::EmptyPopulation(_)) => json!({"k": "leaf_error", "err": {"k": "empty_population"}}),
+                    Err(DynWeightedError::Other(b)) => {
+                        let v: Value = serde_json::from_str(&b.to_string()).unwrap_or(json!({"k": "unparsed"}));
+                        json!({"k": "leaf_error", "err": v})
+                    }
+                }
+            })
+            .unwrap_or_else(|m| json!({"k": "panic", "msg": m}));
+            let leaves: Vec<Value> = leaves.iter().zip(&weights).map(|(l, w)| {
+                let mut l = l.clone();
+                l["w"] = json!(if *w == 0 { 0 } else { 1 });
+                l
+            }).collect();
+            out.line(&json!({"ev": "dyn", "run": run, "pop": popj, "leaves": leaves, "overflow": overflow, "res": res}));
+            continue;
+        }
+        let tree = gen(&mut rng, 3, n, m);
         let erased = rng.random::<bool>();
         let res = guarded(|| {
             let node = build(&tree).expect("small weights");
